@@ -46,7 +46,7 @@ def case(spec, log):
                 return {'skipped': 'slow-exit is a thread-kind state'}
             from vlib.vstate import SlowCleanupPersistentThreadWorker
             cls = SlowCleanupPersistentThreadWorker
-        w = cls(target, args=['D1', 'D2'], kwargs={'dk': 5}, name='wname', userid=77, results_pipe=pipe0, **kw)
+        w = cls(target, args=['D1', 'D2'], kwargs={'dk': 5}, name=spec.get('name', 'wname'), userid=spec.get('userid', 77), results_pipe=pipe0, **kw)
         inc = 0
         uid = 0
 
@@ -172,7 +172,7 @@ def judge(chk, spec, res):
                 probs.append('returned-while-old-child-still-running')
             if not h['alive']:
                 probs.append('not-alive-after-restart')
-            if h['name'] != 'wname' or h['userid'] != 77:
+            if h['name'] != spec.get('name', 'wname') or h['userid'] != spec.get('userid', 77):
                 probs.append('name-or-userid-changed')
             if not h['own_process'] and h['new_id'] == h['old_id']:
                 probs.append('same-identity-after-restart')
@@ -218,8 +218,13 @@ def run(tier):
                         jobs.append(dict(cls=cls, state=state, supplied_pipe=supplied, restarts=1, timeout=to, stray_window=1.6, between=['idle'] * 3))
                     continue
                 for n in reps:
-                    jobs.append(dict(cls=cls, state=state, supplied_pipe=supplied, restarts=n, timeout=0.5,
+                    # falsy but meaningful identification (the first worker of a pool has userid 0)
+                    ident = r.choice([{}, {}, {'userid': 0}, {'userid': 0, 'name': ''}, {'name': ''}])
+                    jobs.append(dict(ident, cls=cls, state=state, supplied_pipe=supplied, restarts=n, timeout=0.5,
                                      stray_window=0.05, between=[r.choice(['unread', 'queued', 'dead', 'idle']) for _ in range(3)]))
+    for cls in CLASSES:
+        for state in ('never-used', 'died-by-exception', 'results-unread'):
+            jobs.append(dict(cls=cls, state=state, supplied_pipe=False, restarts=2, timeout=0.5, stray_window=0.05, between=['idle'] * 3, userid=0, name=''))
     wd = workdir('c17')
 
     def one(ij):
@@ -229,7 +234,7 @@ def run(tier):
         return sp, res
 
     for sp, res in pmap(one, list(enumerate(jobs)), 10):
-        chk.case((sp['cls'], sp['state'], sp['restarts'], sp['supplied_pipe'], sp['timeout'], tuple(sp['between'][:sp['restarts'] - 1])))
+        chk.case((sp['cls'], sp['state'], sp['restarts'], sp['supplied_pipe'], sp['timeout'], sp.get('userid', 77), sp.get('name', 'wname'), tuple(sp['between'][:sp['restarts'] - 1])))
         chk.count('cases')
         judge(chk, sp, res)
     cleanup(wd)
